@@ -13,12 +13,12 @@ Definition mk_ans rc tc an ropt qopt qoptcnt : ansinfo :=
   {| a_rcode := rc; a_tc := tc; a_ancount := an; a_resp_opt := ropt; a_req_opt := qopt; a_req_optcnt := qoptcnt |}.
 
 Definition mkcfg (fx : fixes) (max_tries : nat) : config :=
-  {| cf_fix := fx; cf_max_tries := max_tries; cf_igntc := false; cf_nocheckresp := false; cf_dns0x20 := false |}.
+  {| cf_fix := fx; cf_tries := max_tries; cf_nservers := 1; cf_igntc := false; cf_nocheckresp := false; cf_dns0x20 := false |}.
 
-Definition without_unlink := {| fx_unlink := false; fx_search := true; fx_revalidate := true; fx_connread := true; fx_qidearly := true |}.
-Definition without_search := {| fx_unlink := true; fx_search := false; fx_revalidate := true; fx_connread := true; fx_qidearly := true |}.
-Definition without_revalidate := {| fx_unlink := true; fx_search := true; fx_revalidate := false; fx_connread := true; fx_qidearly := true |}.
-Definition without_connread := {| fx_unlink := true; fx_search := true; fx_revalidate := true; fx_connread := false; fx_qidearly := true |}.
+Definition without_unlink := {| fx_unlink := false; fx_search := true; fx_revalidate := true; fx_connread := true; fx_qidearly := true; fx_cancelmark := true |}.
+Definition without_search := {| fx_unlink := true; fx_search := false; fx_revalidate := true; fx_connread := true; fx_qidearly := true; fx_cancelmark := true |}.
+Definition without_revalidate := {| fx_unlink := true; fx_search := true; fx_revalidate := false; fx_connread := true; fx_qidearly := true; fx_cancelmark := true |}.
+Definition without_connread := {| fx_unlink := true; fx_search := true; fx_revalidate := true; fx_connread := false; fx_qidearly := true; fx_cancelmark := true |}.
 
 Definition accepted (o : outcome (list event)) : bool :=
   match o with Ok tr => match callback_monitor tr with VOk => true | _ => false end | _ => false end.
@@ -91,7 +91,7 @@ Definition h_cancel_in_destroy (pinned_tape : bool) : list (input * list tev) :=
       on it no longer retries (terminate_retries) and ends; getaddrinfo 1 completes and its callback
       cancels, which completes getaddrinfo 5 and releases its host_query; ares_send_nolock() then
       stores the query id through &hquery->qid_a. *)
-Definition without_qidearly := {| fx_unlink := true; fx_search := true; fx_revalidate := true; fx_connread := true; fx_qidearly := false |}.
+Definition without_qidearly := {| fx_unlink := true; fx_search := true; fx_revalidate := true; fx_connread := true; fx_qidearly := false; fx_cancelmark := true |}.
 Definition h_qid_after_free : list (input * list tev) := [
   (IApi (ASend 9), [TI 1; TQ (4)%Z 0 0 2; TD (0)%Z; TO (0)%Z; TW 1 0 false; TF 0 (0)%Z]);
   (IOnCb 1 (ACancel), []);
@@ -148,3 +148,46 @@ Example refuted_qid_written_after_free :
   ub_of (run (mkcfg without_qidearly 4) fuel h_qid_after_free []) = Some UseAfterFree
   /\ accepted (run (mkcfg all_fixed 4) fuel h_qid_after_free []) = true.
 Proof. vm_compute. split; reflexivity. Qed.
+
+Definition without_cancelmark := {| fx_unlink := true; fx_search := true; fx_revalidate := true; fx_connread := true;
+  fx_qidearly := true; fx_cancelmark := false |}.
+
+(* ---- ares_cancel() did not always cancel everything (/repo 72dadb8, before fixes/C01-cancel-complete.patch) ----
+   lctrace=1 serverstatecb=1 servers=1 tries=1 lookups=bb|send 2 x.example IN A rd;ghba 1 10.1.1.1;
+   oncb 2 send,3,y.example,IN,A,rd;fail sendto 1 ECONNREFUSED;cancel;qlen;rspall an=PTR:h.example:60;run
+   ares_cancel moves both queries to its private list and cancels the older one; its callback
+   submits a request whose send fails on the shared connection; closing the connection re-queues
+   the PTR query (still waiting to be cancelled), which has no tries left and ends with
+   ECONNREFUSED; addr_callback goes on with the next lookup ('b' again) and the new query is
+   linked into the fresh list of all queries: request 1 survives ares_cancel. *)
+Definition h_cancel_incomplete : list (input * list tev) := [
+  (IApi (ASend 2), [TI 1; TQ (4)%Z 0 0 2; TD (0)%Z; TO (0)%Z; TW 1 0 false; TF 0 (0)%Z]);
+  (IApi (AGhba 1 [true; true]), [TI 3; TQ (4)%Z 0 0 2; TD (0)%Z; TW 3 0 false; TF 0 (0)%Z]);
+  (IOnCb 2 (ASend 3), []);
+  (IApi (ACancel), [TI 4; TQ (4)%Z 0 0 2; TD (0)%Z; TW 4 0 false; TF 0 (11)%Z; TS; TX 0 (11)%Z; TE 3 (11)%Z; TI 5; TQ (4)%Z 0 0 2; TD (0)%Z; TO (0)%Z; TW 5 1 false; TF 1 (0)%Z; TCL 0; TE 4 (11)%Z; TK; TKE]);
+  (IApi (ANop), []);
+  (IProc [] [1], [TM 5 1 (mk_ans 0 false 1 true true true); TMR (0)%Z false; TG; TE 5 (0)%Z; TR (0)%Z; TK; TCL 1; TKE])].
+
+Definition tr_cancel_incomplete : list event :=
+  [EvReq 2; EvReq 1; EvCancelBegin; EvCb 2 24%Z; EvReq 3; EvCb 3 11%Z; EvCancelEnd; EvCb 1 0%Z;
+   EvDestroyBegin; EvDestroyEnd; EvEnd].
+
+Lemma cancel_incomplete_run : run (mkcfg without_cancelmark 1) fuel h_cancel_incomplete [] = Ok tr_cancel_incomplete.
+Proof. vm_compute. reflexivity. Qed.
+
+Lemma cancel_incomplete_bad : ~ complete_at_cancel tr_cancel_incomplete.
+Proof.
+  intros H.
+  specialize (H [EvReq 2; EvReq 1] [EvCb 2 24%Z; EvReq 3; EvCb 3 11%Z]
+                [EvCb 1 0%Z; EvDestroyBegin; EvDestroyEnd; EvEnd] eq_refl).
+  assert (A : ~ In EvCancelBegin [EvCb 2 24%Z; EvReq 3; EvCb 3 11%Z]) by (simpl; intuition discriminate).
+  assert (B : ~ In EvSetServers [EvCb 2 24%Z; EvReq 3; EvCb 3 11%Z]) by (simpl; intuition discriminate).
+  specialize (H A B 1 (or_intror (or_introl eq_refl))). vm_compute in H. inversion H.
+Qed.
+
+Theorem cancel_incomplete :
+  exists cf fuel h final tr, cf_fix cf = without_cancelmark /\ run cf fuel h final = Ok tr /\ ~ complete_at_cancel tr.
+Proof.
+  exists (mkcfg without_cancelmark 1), fuel, h_cancel_incomplete, [], tr_cancel_incomplete.
+  split; [reflexivity|]. split; [exact cancel_incomplete_run|exact cancel_incomplete_bad].
+Qed.
